@@ -1323,6 +1323,74 @@ static void runFm(const Case &c) {
   delete d;
 }
 
+// RPFC as its query layer sees it: grammar, the header of every bucket and the Re-Pair symbols behind it
+// (the bitsrp-wide fields are unpacked here the way decodeSymbol does it), and its own answers;
+// re-validated by the Lean driver (`rfchk`): the streams must store the front-coded strings, and the
+// model of decodeString / locate / extract / locatePrefix is run on the exported structure.
+#include "StringDictionaryRPFC.h"
+static void runRpfc(const Case &c) {
+  size_t len = 0;
+  uchar *buf = plain(c.strs, len, 0);
+  StringDictionaryRPFC *d = new StringDictionaryRPFC(new IteratorDictStringPlain(buf, len), (uint)c.geti("b", 4));
+  for (auto &op : c.ops) {
+    g_op++;
+    if (op[0] == "reload") {
+      std::stringstream ss(std::ios::in | std::ios::out | std::ios::binary);
+      d->save(ss);
+      StringDictionary *d2 = StringDictionaryRPFC::load(ss);
+      delete d; d = (StringDictionaryRPFC *)d2;
+      emit("RQ reloaded");
+    } else if (op[0] == "rf") { // rf <absent queries|-> <prefixes|->
+      RePair *rp = d->rp;
+      string rules, hdr, st, loc, qa, pre, ext;
+      for (uint64_t k = 0; k < rp->rules; k++)
+        rules += (k ? "," : "") + std::to_string(rp->G->getField(2 * k)) + ":" + std::to_string(rp->G->getField(2 * k + 1));
+      for (size_t b = 1; b <= d->buckets; b++) {
+        size_t beg = d->blStrings->getField(b), end = d->blStrings->getField(b + 1);
+        if (b == d->buckets) end = d->bytesStrings;
+        const uchar *p = d->textStrings + beg;
+        size_t hl = strlen((const char *)p);
+        hdr += (b > 1 ? "," : "") + hex(p, hl);
+        size_t bitpos = (beg + hl + 1) * 8, bitend = end * 8;
+        string one;
+        while (bitpos + d->bitsrp <= bitend) {
+          uint64_t v = 0;
+          for (uint t = 0; t < d->bitsrp; t++, bitpos++)
+            v = (v << 1) | ((d->textStrings[bitpos / 8] >> (7 - bitpos % 8)) & 1);
+          one += (one.empty() ? "" : ",") + std::to_string(v);
+        }
+        st += (b > 1 ? ";" : "") + (one.empty() ? string("e") : one);
+      }
+      for (size_t i = 0; i < c.strs.size(); i++) {
+        Pat p(c.strs[i]);
+        loc += (i ? "," : "") + std::to_string(d->locate(p.p, (uint)p.n));
+      }
+      if (op.size() > 1 && op[1] != "-")
+        for (auto &h : splitc(op[1])) {
+          Pat p(unhex(h));
+          qa += (qa.empty() ? "" : ",") + std::to_string(d->locate(p.p, (uint)p.n));
+        }
+      if (op.size() > 2 && op[2] != "-")
+        for (auto &h : splitc(op[2])) {
+          Pat p(unhex(h));
+          IteratorDictIDContiguous *it = (IteratorDictIDContiguous *)d->locatePrefix(p.p, (uint)p.n);
+          pre += (pre.empty() ? "" : ",") + std::to_string(it->getLeftLimit()) + ":" + std::to_string(it->getRightLimit());
+          delete it;
+        }
+      for (size_t id = 0; id <= d->numElements() + 1; id++) {
+        uint l = 0; uchar *s = d->extract(id, &l);
+        ext += (id ? "," : "") + (s ? "x" + hex(s, strlen((char *)s)) : string("N"));
+        delete[] s;
+      }
+      emit("RF t=%llu mc=%u bits=%u el=%zu ml=%u bk=%u bs=%u rules=%s hdr=%s st=%s loc=%s abs=%s pre=%s ext=%s", (unsigned long long)rp->terminals,
+           (uint)rp->maxchar, d->bitsrp, (size_t)d->numElements(), (uint)d->maxLength(), (uint)d->buckets, (uint)d->bucketsize,
+           rules.empty() ? "-" : rules.c_str(), hdr.c_str(), st.c_str(), loc.empty() ? "-" : loc.c_str(), qa.empty() ? "-" : qa.c_str(),
+           pre.empty() ? "-" : pre.c_str(), ext.c_str());
+    } else emit("ERR unknown-op");
+  }
+  delete d;
+}
+
 // ---------------------------------------------------------------------------
 static void runCase(const Case &c) {
   if (c.stream == "dict") runDict(c);
@@ -1338,6 +1406,7 @@ static void runCase(const Case &c) {
   else if (c.stream == "rpdac") { if (c.kind == "HASHRPDAC") runHrpdac(c); else if (c.kind == "HASHRPF") runHrpf(c); else runRpdac(c); }
   else if (c.stream == "hhf") runHhf(c);
   else if (c.stream == "fm") runFm(c);
+  else if (c.stream == "rpfc") runRpfc(c);
   else emit("ERR unknown-stream %s", c.stream.c_str());
 }
 
